@@ -962,7 +962,9 @@ fn main() {
                     "body": &src.text[bo..bc_end],
                     "out_start": fn_out_start, "out_end": ob.line,
                     "loops": scan.loops.len(),
-                    "rewrites": scan.rewrites.iter().map(|(a, _b, t, rule)| json!({"rule": rule, "src_line": src.line_of(*a), "to": t})).collect::<Vec<_>>(),
+                    "rewrites": scan.rewrites.iter().map(|(a, _b, t, rule)| json!({"rule": rule, "src_line": src.line_of(*a), "to": t}))
+                        .chain(edits.iter().filter(|e| e.4["kind"] == "rewrite" && e.4.get("src_line").is_none()).map(|e| json!({"rule": e.4["rule"], "src_line": src.line_of(e.0), "to": e.3})))
+                        .collect::<Vec<_>>(),
                 }));
             }
         }
